@@ -18,6 +18,8 @@ import (
 const repoModule = "github.com/pgavlin/dawn"
 
 type World struct {
+	stableWriters map[string]map[string]bool // stable field key -> declared writer keys
+	stableReach   map[string]map[*ssa.Function]bool
 	RepoDir string
 	Prog    *ssa.Program
 	Pkgs    []*packages.Package
@@ -312,3 +314,77 @@ func (w *World) mayHaveGhostEffects(fn *ssa.Function, seen map[*ssa.Function]boo
 	}
 	return false
 }
+
+// mayWriteStable reports whether fn is, or may reach through static calls (including the closures it
+// creates and the functions it defers or spawns), a declared writer of the stable field with key k
+// ("F:<type>.<field>"). Interface and closure-value calls are not followed: that dynamic calls do not
+// reach a writer of a stable field is an assumption of `stable` (stated in DESIGN.md).
+func (w *World) mayWriteStable(fn *ssa.Function, k string) bool {
+	if fn == nil {
+		return false
+	}
+	if w.stableWriters == nil {
+		w.stableWriters = map[string]map[string]bool{}
+		for tn, sc := range w.CS.Structs {
+			for f, ws := range sc.Stable {
+				m := map[string]bool{}
+				for _, x := range ws {
+					m[strings.TrimSpace(x)] = true
+				}
+				w.stableWriters["F:"+tn+"."+f] = m
+			}
+		}
+		w.stableReach = map[string]map[*ssa.Function]bool{}
+	}
+	writers := w.stableWriters[k]
+	if len(writers) == 0 {
+		return false
+	}
+	memo := w.stableReach[k]
+	if memo == nil {
+		memo = map[*ssa.Function]bool{}
+		w.stableReach[k] = memo
+	}
+	var visit func(f *ssa.Function, seen map[*ssa.Function]bool) bool
+	visit = func(f *ssa.Function, seen map[*ssa.Function]bool) bool {
+		if f == nil {
+			return false
+		}
+		if r, ok := memo[f]; ok {
+			return r
+		}
+		if seen[f] {
+			return false
+		}
+		seen[f] = true
+		if writers[fnKey(f)] {
+			memo[f] = true
+			return true
+		}
+		for _, b := range f.Blocks {
+			for _, ins := range b.Instrs {
+				var callee *ssa.Function
+				switch x := ins.(type) {
+				case ssa.CallInstruction:
+					callee = x.Common().StaticCallee()
+				case *ssa.MakeClosure:
+					callee, _ = x.Fn.(*ssa.Function)
+				}
+				if callee != nil && visit(callee, seen) {
+					memo[f] = true
+					return true
+				}
+			}
+		}
+		for _, af := range f.AnonFuncs {
+			if visit(af, seen) {
+				memo[f] = true
+				return true
+			}
+		}
+		memo[f] = false
+		return false
+	}
+	return visit(fn, map[*ssa.Function]bool{})
+}
+
